@@ -413,6 +413,32 @@ func init() {
 	register("inbound32skip", mkInbound(32, false))
 	register("inbound64", mkInbound(64, true))
 
+	// an acknowledgement is owed across a reconnect that also has an outbound
+	// PUBLISH to retransmit
+	register("ackresend", func() *Scenario {
+		return &Scenario{
+			Config: baseConfig(),
+			Burst:  true,
+			Actors: []ActorSpec{
+				{Name: "reader", Reader: &ReaderSpec{Backoff: true}},
+				{Name: "D", Ops: []Op{{Kind: "pub1", Topic: "o/d", Msg: []byte("D-payload")}, {Kind: "pub2", Topic: "o/e", Msg: []byte("E-payload")}}},
+			},
+			Inbound: []InMsg{
+				{QoS: 1, ID: 11, Topic: "k/1", Body: []byte("first-q1")},
+				{QoS: 2, ID: 12, Topic: "k/2", Body: []byte("second-q2")},
+			},
+			Faults:  Faults{WriteCuts: cutsEdge, WriteErr: true, WriteTimeout: true, Cut: true, NoResponse: true},
+			Horizon: 3000,
+			Final: func(w *World) {
+				w.monitorWire()
+				w.monitorAckTiming()
+				w.monitorQoS2In()
+				// (no "every error has a cause" rule here: see DESIGN §6, the
+				// PUBREL sent twice after a reconnect makes the client reset a
+				// healthy connection, which no clause of C07 forbids)
+			},
+		}
+	})
 	register("acktiming", func() *Scenario {
 		return &Scenario{
 			Config:  baseConfig(),
